@@ -60,28 +60,30 @@ func (c *Consistent) hash(key string) int64 {
 // pick get a  node
 func (c *Consistent) pick(sessions *sync.Map, key string) getty.Session {
 	hashKey := c.hash(key)
+	session := c.lookup(hashKey)
+	if session != nil && session.IsClosed() {
+		// the ring still names a closed session: rebuild it from the sessions
+		// registered now and look again
+		c.refreshHashCircle(sessions)
+		session = c.lookup(hashKey)
+	}
+	if session == nil || session.IsClosed() {
+		return RandomLoadBalance(sessions, key)
+	}
+	return session
+}
+
+// lookup returns the session of the first virtual node at or after hashKey, nil if there is none
+func (c *Consistent) lookup(hashKey int64) getty.Session {
+	c.RLock()
+	defer c.RUnlock()
 	index := sort.Search(len(c.sortedHashNodes), func(i int) bool {
 		return c.sortedHashNodes[i] >= hashKey
 	})
-
 	if index == len(c.sortedHashNodes) {
-		return RandomLoadBalance(sessions, key)
+		return nil
 	}
-
-	c.RLock()
-	session, ok := c.hashCircle[c.sortedHashNodes[index]]
-	if !ok {
-		c.RUnlock()
-		return RandomLoadBalance(sessions, key)
-	}
-	c.RUnlock()
-
-	if session.IsClosed() {
-		go c.refreshHashCircle(sessions)
-		return c.firstKey()
-	}
-
-	return session
+	return c.hashCircle[c.sortedHashNodes[index]]
 }
 
 // refreshHashCircle refresh hashCircle
@@ -108,8 +110,10 @@ func (c *Consistent) refreshHashCircle(sessions *sync.Map) {
 		return sortedHashNodes[i] < sortedHashNodes[j]
 	})
 
+	c.Lock()
 	c.sortedHashNodes = sortedHashNodes
 	c.hashCircle = hashCircle
+	c.Unlock()
 }
 
 func (c *Consistent) firstKey() getty.Session {
